@@ -20,11 +20,11 @@ CLAIMED = {
     },
     "C20": {
         "text": "Seeded search over (pcap stream x generated filter program x stdin chunk schedule x cut point x -s) with an exact reference evaluator for the generated filter grammar predicting stderr text and stdout bytes; one real p2sh process per run.",
-        "note": "Trusted: the reference evaluator (small grammar over NP/PL/WL/TSS/TSU, globals, filter locals, header assignments), the shim. Bounds: <=40 packets, <=5 filters, expression depth <=3.",
+        "note": "Trusted: the reference evaluator (small grammar over NP/PL/WL/TSS/TSU, globals, filter locals, header assignments), the shim. Bounds: <=40 packets (4% of the runs: 500-5000 tiny packets), <=5 filters + end, <=2 helper functions, expression depth <=3.",
         "ref": "DESIGN.md section 3 (C20)",
     },
     "C21": {
-        "text": "Seeded search over (contents x call sequences x read(2) chunk schedules x BufReader phase) for reads and (modes x existing/missing x write sizes around the BufWriter capacity x way of ending incl. SIGKILL at a chosen system call) for writes; cursor / path->bytes reference models checked operation by operation and on the files left behind.",
+        "text": "Seeded search over (contents x call sequences x read(2) chunk schedules x BufReader phase) for reads and (modes x existing/missing x write sizes around the BufWriter capacity x way of ending incl. SIGKILL at a chosen system call) for writes; cursor / path->bytes reference models checked operation by operation and on the files left behind; several append-mode handles on one file must produce the flushed chunks in flush order.",
         "note": "Trusted: the reference models, the shim, tmpfs semantics. Regular-file reads are never shortened. Unflushed data at exit(n)/kill is not required to be on disk. Bounds: <=3 handles, <=12 ops per handle, contents <=70 kB.",
         "ref": "DESIGN.md section 3 (C21)",
     },
@@ -34,7 +34,7 @@ CLAIMED = {
         "ref": "DESIGN.md section 3 (C22)",
     },
     "C23": {
-        "text": "Seeded search over REPL histories with injected failing lines (parse errors, compile errors incl. after definitions and inside function bodies, runtime errors), driving the real REPL through a kernel pty; refinement oracle against the same binary in script mode running the accepted history; probe lines after every rejected line.",
+        "text": "Seeded search over REPL histories with injected failing lines (parse errors, compile errors incl. after definitions and inside function bodies, runtime errors), driving the real REPL through a kernel pty; refinement oracle against the same binary running the accepted history non-interactively (-c mode for accepted lines so that the echo of the last value is compared exactly, script mode for failing lines); probe lines printing every live binding after every rejected line.",
         "note": "Trusted: the pty driver's prompt detection and ANSI stripping, script mode as the reference semantics (per the property's own definition). Bounds: 1-12 lines, <=3 statements per line.",
         "ref": "DESIGN.md section 3 (C23)",
     },
